@@ -191,7 +191,7 @@ impl Debug for Request {
 #[allow(clippy::large_enum_variant)] // Request is at fault
 pub enum BatchRequest {
     /// Single query
-    Single(Request),
+    Single(#[serde(deserialize_with = "deserialize_request_object")] Request),
 
     /// Non-empty array of queries
     #[serde(deserialize_with = "deserialize_non_empty_vec")]
@@ -269,18 +269,47 @@ impl BatchRequest {
     }
 }
 
-fn deserialize_non_empty_vec<'de, D, T>(deserializer: D) -> Result<Vec<T>, D::Error>
+/// Deserialize a request from a JSON object only (the derived implementation
+/// of `Request` would also accept an array of its fields in declaration
+/// order, which made `[]` a valid single request).
+fn deserialize_request_object<'de, D>(deserializer: D) -> Result<Request, D::Error>
 where
     D: Deserializer<'de>,
-    T: Deserialize<'de>,
+{
+    struct RequestObjectVisitor;
+
+    impl<'de> serde::de::Visitor<'de> for RequestObjectVisitor {
+        type Value = Request;
+
+        fn expecting(&self, f: &mut Formatter) -> fmt::Result {
+            f.write_str("a request object")
+        }
+
+        fn visit_map<A>(self, map: A) -> Result<Request, A::Error>
+        where
+            A: serde::de::MapAccess<'de>,
+        {
+            Request::deserialize(serde::de::value::MapAccessDeserializer::new(map))
+        }
+    }
+
+    deserializer.deserialize_map(RequestObjectVisitor)
+}
+
+fn deserialize_non_empty_vec<'de, D>(deserializer: D) -> Result<Vec<Request>, D::Error>
+where
+    D: Deserializer<'de>,
 {
     use serde::de::Error as _;
 
-    let v = <Vec<T>>::deserialize(deserializer)?;
+    #[derive(Deserialize)]
+    struct RequestObject(#[serde(deserialize_with = "deserialize_request_object")] Request);
+
+    let v = <Vec<RequestObject>>::deserialize(deserializer)?;
     if v.is_empty() {
         Err(D::Error::invalid_length(0, &"a non-empty sequence"))
     } else {
-        Ok(v)
+        Ok(v.into_iter().map(|request| request.0).collect())
     }
 }
 
